@@ -16,7 +16,7 @@ const dbT = "pkg/localstore.DB"
 func init() {
 	reg("C11", Meta{
 		Technique:   "lockset (guarded-by) analysis for every index/field write and the GC coordination fields, must-guard reachability for the exists flag and the pinned-chunk refusal, provenance of the reported exists flags",
-		Explanation: "C11 (local store returns what was stored), structural clauses: (Lk1) every write to a localstore index or field (Put/PutInBatch/Delete/DeleteInBatch/… on retrievalDataIndex, retrievalAccessIndex, gcIndex, pinIndex, gcSize, binIDs) and every access to gcRunning / dirtyAddresses happens with DB.batchMu held (constructor and migrations excepted) — so concurrent puts/sets/GC cannot interleave their read-check-write sequences; (G1) putUpload/putRequest write the chunk data only on the branch where the data index reported it absent, and report exists=true exactly on the other branch; put's per-chunk flags are that result or the in-call duplicate test; (G2) setRemove deletes chunk data only when the pin counter did not stay positive. Not decided: byte equality of what is read back, equivalence of batched and one-at-a-time puts (needs execution).",
+		Explanation: "C11 (local store returns what was stored), structural clauses: (Lk1) every write to a localstore index or field (Put/PutInBatch/Delete/DeleteInBatch/… on retrievalDataIndex, retrievalAccessIndex, gcIndex, pinIndex, gcSize, binIDs) and every access to gcRunning / dirtyAddresses happens with DB.batchMu held (constructor and migrations excepted) — so concurrent puts/sets/GC cannot interleave their read-check-write sequences; (G1) putUpload/putRequest write the chunk data only on the branch where the data index reported it absent, and report exists=true exactly on the other branch; put's per-chunk flags are that result or the in-call duplicate test; (P2) the in-call duplicate test (containsChunk) decides by address equality alone, as the data index does; (G2) setRemove deletes chunk data only when the pin counter did not stay positive. Not decided: byte equality of what is read back, equivalence of batched and one-at-a-time puts (needs execution).",
 	}, c11)
 	reg("C12", Meta{
 		Technique:   "who-may-write over the call graph reachable from the garbage collector (no pin-index write), must-guard reachability (GC deletes data only behind 'no pin entry'), reachability disjointness for the upload path",
@@ -256,6 +256,40 @@ func c11(r *core.Run) {
 		})
 		r.Floor("C11.G1", "exist[i] assignments in put", nst, 4)
 	}
+	// P2: the in-call duplicate test is by ADDRESS (the store is content-addressed by the
+	// address alone: a second chunk with the same address is "already there" whatever its
+	// bytes, exactly as the data-index test would say one call later)
+	if cc := lsFunc(r, "containsChunk"); cc != nil {
+		r.Saw(core.FuncName(cc))
+		r.Eval(core.EdgeCount(cc))
+		byAddr, _ := core.AtomEdges(cc, core.BoolCallAtom(func(c *ssa.Call) bool {
+			if !core.IsCallTo(c, "(pkg/boson.Address).Equal") {
+				return false
+			}
+			isElemAddr := func(v ssa.Value) bool {
+				ac, _ := core.CallOf(v)
+				return ac != nil && core.IsCallTo(ac, "(pkg/boson.Chunk).Address")
+			}
+			a, b := c.Call.Args[0], c.Call.Args[1]
+			return isElemAddr(a) || isElemAddr(b)
+		}))
+		nT := 0
+		core.EachInstr(cc, func(_ *ssa.BasicBlock, _ int, in ssa.Instruction) {
+			ret, ok := in.(*ssa.Return)
+			if !ok {
+				return
+			}
+			b, isC := core.ConstBool(core.Forward(ret.Results[0]))
+			if isC && !b {
+				return
+			}
+			nT++
+			r.Check("C11.P2", core.Key("C11.P2", cc, "duplicate decided by address equality"), ret.Pos(), isC && len(byAddr) > 0 && core.OnlyBehind(cc, ret, byAddr),
+				"a chunk counts as an in-call duplicate exactly when an earlier chunk of the call has the same address", "the in-call duplicate test is not (only) address equality: two chunks with one address and different bytes are both written in a batched put, while one-at-a-time puts keep the first and report the second as existing")
+		})
+		r.Floor("C11.P2", "positive returns of containsChunk", nT, 1)
+	}
+
 	// G2 setRemove
 	if fn := lsFunc(r, "(*DB).setRemove"); fn != nil {
 		r.Saw(core.FuncName(fn))
